@@ -28,7 +28,8 @@ class Unsupported(Exception):
 
 
 ATTRS = {"dead_indices": ("dead", "set_dead", "list"), "item_list": ("items", "set_items", "list"),
-         "item_index_map": ("imap", None, "dict")}
+         "item_index_map": ("imap", "set_imap", "dict")}
+IGNORED_ATTRS = ("_compactions", "_c_max_size")      # statistics counters: no part of the modelled state
 
 
 def _fail(node, why):
@@ -174,9 +175,39 @@ class Cull:
         if isinstance(s, ast.Expr) and isinstance(s.value, ast.Call) and isinstance(s.value.func, ast.Attribute) \
                 and isinstance(s.value.func.value, ast.Name) and s.value.func.value.id == "self" \
                 and s.value.func.attr == "_compact" and not s.value.args and not s.value.keywords:
-            return sp + "let self := m_compact self in\n"
+            return sp + "let self := src_compact self in\n"
         if isinstance(s, ast.Expr) and isinstance(s.value, ast.Constant) and isinstance(s.value.value, str):
             return ""
+        # self._compactions += 1 / self._c_max_size = max(self._c_max_size, len(items)): counters, skipped
+        if isinstance(s, (ast.Assign, ast.AugAssign)):
+            tg = s.targets[0] if isinstance(s, ast.Assign) and len(s.targets) == 1 else getattr(s, "target", None)
+            if isinstance(tg, ast.Attribute) and isinstance(tg.value, ast.Name) and tg.value.id == "self" \
+                    and tg.attr in IGNORED_ATTRS:
+                for n in ast.walk(s.value):
+                    if isinstance(n, ast.Call) and not (isinstance(n.func, ast.Name) and n.func.id in ("max", "len")):
+                        _fail(s, "call inside a counter update")
+                return ""
+        # for i, item in enumerate(self): items[i] = item; index_map[item] = i
+        # (the generator over self reads slot j >= i before slot i is written: a snapshot of the live items)
+        if isinstance(s, ast.For):
+            ok = (isinstance(s.target, ast.Tuple) and len(s.target.elts) == 2 and all(isinstance(x, ast.Name) for x in s.target.elts)
+                  and isinstance(s.iter, ast.Call) and isinstance(s.iter.func, ast.Name) and s.iter.func.id == "enumerate"
+                  and len(s.iter.args) == 1 and not s.iter.keywords and isinstance(s.iter.args[0], ast.Name)
+                  and s.iter.args[0].id == "self" and not s.orelse and len(s.body) == 2
+                  and all(isinstance(b, ast.Assign) and len(b.targets) == 1 and isinstance(b.targets[0], ast.Subscript)
+                          for b in s.body))
+            if ok:
+                i, item = s.target.elts[0].id, s.target.elts[1].id
+                b1, b2 = s.body
+                ok = (self.attr_of(b1.targets[0].value) == "item_list" and isinstance(b1.targets[0].slice, ast.Name)
+                      and b1.targets[0].slice.id == i and isinstance(b1.value, ast.Name) and b1.value.id == item
+                      and self.attr_of(b2.targets[0].value) == "item_index_map" and isinstance(b2.targets[0].slice, ast.Name)
+                      and b2.targets[0].slice.id == item and isinstance(b2.value, ast.Name) and b2.value.id == i)
+            if not ok:
+                _fail(s, "for loop")
+            return (sp + "let _live := m_live self in\n"
+                    + sp + "let self := set_items self (overwrite (items self) _live) in\n"
+                    + sp + "let self := set_imap self (remap (imap self) _live) in\n")
         # x = [a, b]   (an interval)
         if isinstance(s, ast.Assign) and len(s.targets) == 1 and isinstance(s.targets[0], ast.Name) \
                 and isinstance(s.value, ast.List) and len(s.value.elts) == 2:
@@ -310,6 +341,27 @@ def translate_add_dead(path):
     return "Definition src_add_dead (self : iset) (start : Z) : iset :=\n" + tr.block(fn.body, "  ").rstrip("\n") + ".\n"
 
 
+def translate_compact(path):
+    tree = ast.parse(open(path).read())
+    cls = [n for n in tree.body if isinstance(n, ast.ClassDef) and n.name == "IndexedSet"]
+    if len(cls) != 1:
+        raise Unsupported("class IndexedSet not found")
+    fn = [n for n in cls[0].body if isinstance(n, ast.FunctionDef) and n.name == "_compact"]
+    if len(fn) != 1:
+        raise Unsupported("IndexedSet._compact not found")
+    fn = fn[0]
+    if [a.arg for a in fn.args.args] != ["self"] or fn.args.vararg or fn.args.kwarg or fn.args.kwonlyargs or fn.decorator_list:
+        raise Unsupported("unexpected signature of _compact")
+    # _dead_index_count must be the property len(item_list) - len(item_index_map)
+    prop = [n for n in cls[0].body if isinstance(n, ast.FunctionDef) and n.name == "_dead_index_count"]
+    want = ast.parse("return len(self.item_list) - len(self.item_index_map)").body[0]
+    if len(prop) != 1 or len(prop[0].body) != 1 or ast.dump(prop[0].body[0]) != ast.dump(want) \
+            or [ast.unparse(d) for d in prop[0].decorator_list] != ["property"]:
+        raise Unsupported("_dead_index_count is not the expected property")
+    tr = Cull(module_int_consts(tree))
+    return "Definition src_compact (self : iset) : iset :=\n" + tr.block(fn.body, "  ").rstrip("\n") + ".\n"
+
+
 def translate(path):
     tree = ast.parse(open(path).read())
     cls = [n for n in tree.body if isinstance(n, ast.ClassDef) and n.name == "IndexedSet"]
@@ -325,11 +377,12 @@ def translate(path):
     return "Definition src_cull (self : iset) : iset :=\n" + tr.block(fn.body, "  ").rstrip("\n") + ".\n"
 
 
-HEADER = """(* GENERATED on every run by harness/translators/c11_cull.py from %s (IndexedSet._cull, IndexedSet._add_dead); do not edit. *)
+HEADER = """(* GENERATED on every run by harness/translators/c11_cull.py from %s (IndexedSet._compact, _cull, _add_dead); do not edit. *)
 From Boltons Require Import Lib.Prelude Lib.PySrc Lib.C11_Iface Model.C11_Model Lib.C11_PyImp.
 """
 
 
 def generate(repo):
     path = os.path.join(repo, "boltons", "setutils.py")
-    return {"C11_Cull": HEADER % "boltons/setutils.py" + translate(path) + "\n" + translate_add_dead(path)}
+    return {"C11_Cull": HEADER % "boltons/setutils.py" + translate_compact(path) + "\n" + translate(path) + "\n"
+            + translate_add_dead(path)}
